@@ -38,6 +38,7 @@ type opDef struct {
 	Refs  []string // push: remote branch names updated by ONE `git push` (empty: the user's own branch work-<user>)
 	Fault *faultDef
 	Page  bool
+	Limit int // locks / locks --json / locks --verify [--json]: `--limit N` (0: no --limit argument)
 }
 
 func (o opDef) deviates() bool { return o.Fault != nil || o.Page }
@@ -128,6 +129,13 @@ func kindText(kind, file string) string {
 		return "git push origin work"
 	}
 	return kind + " " + file
+}
+
+// lim is the lock-listing operation o with `--limit n`.
+func (o opDef) lim(n int) opDef {
+	o.Limit = n
+	o.Name += fmt.Sprintf(" --limit %d", n)
+	return o
 }
 
 func (o opDef) with(f *faultDef, page bool) opDef {
@@ -426,6 +434,15 @@ func (e *envT) runOp(w *world, n *node, o opDef) (gitx.Res, string) {
 		os.Chmod(p, st.Mode().Perm())
 		return gitx.Res{}, fmt.Sprintf("(write %q to %s in place, mode kept)", content, f)
 	}
+	if o.Limit > 0 {
+		switch o.Kind {
+		case "locks", "locks-json", "locks-verify", "locks-verify-json":
+			l := lfs
+			lfs = func(args ...string) (gitx.Res, string) { return l(append(args, "--limit", fmt.Sprint(o.Limit))...) }
+		default:
+			panic(vx.ToolError{Msg: "--limit on op kind " + o.Kind})
+		}
+	}
 	switch o.Kind {
 	case "lock":
 		return lfs(append([]string{"lock"}, o.args()...)...)
@@ -681,6 +698,7 @@ func (e *envT) step(w *world, pre *node, is *initState, o opDef, where string) s
 		expect[c.Path] = c
 	}
 	verifyKind := o.Kind == "locks-verify" || o.Kind == "locks-verify-json"
+	limitReached := false // a `locks --verify --limit N` whose limit was reached (the server holds >= N locks): partial listing
 	switch {
 	case o.Kind == "lock":
 		for _, g := range granted {
@@ -695,6 +713,35 @@ func (e *envT) step(w *world, pre *node, is *initState, o opDef, where string) s
 					delete(expect, p)
 				}
 			}
+		}
+	case verifyKind && hits == 0 && o.Limit > 0:
+		// A listing with --limit N is a PARTIAL view of the server's table (complete only when the server holds fewer than N
+		// locks): it may leave the cached list alone or bring single entries in line with the server, but it must not change
+		// what the cache says about a lock away from both.  Per path the cached entry must therefore be what was known before
+		// or what the server holds now.
+		obsNow := map[string]cacheEnt{}
+		for _, c := range post.U[u].Cache {
+			obsNow[c.Path] = c
+		}
+		for _, l := range post.Table {
+			if l.Owner != users[u] {
+				continue
+			}
+			if c, ok := obsNow[l.Path]; ok && c.ID == l.ID {
+				expect[l.Path] = cacheEnt{Path: l.Path, ID: l.ID, Owner: l.Owner} // brought in line with the server
+			}
+		}
+		for p, x := range expect {
+			if _, ok := obsNow[p]; !ok {
+				if t := post.tableAt(p); t == nil || t.ID != x.ID || t.Owner != users[u] {
+					delete(expect, p) // a stale entry (lock broken by the other user) dropped: in line with the server
+				}
+			}
+		}
+		limitReached = w.byRef || len(post.Table) >= o.Limit
+		so.counters["clause2b_limited_verify_listings"]++
+		if len(post.Table) > o.Limit {
+			so.counters["clause2b_limited_verify_listings_truncated"]++
 		}
 	case verifyKind && hits == 0:
 		expect = map[string]cacheEnt{}
@@ -776,6 +823,9 @@ func (e *envT) step(w *world, pre *node, is *initState, o opDef, where string) s
 		fk := fpKind
 		if hits == 0 && fk == "locks-verify-json" {
 			fk = "locks-verify" // same code path unless the call fails
+		}
+		if limitReached && verifyKind {
+			fk = "locks-verify-limit" // the partial listing changed the cache
 		}
 		fp := "C16:cache:" + fk + ":" + strings.Join(cls, "+")
 		if hits > 0 && verifyKind {
@@ -1072,7 +1122,26 @@ func (e *envT) step(w *world, pre *node, is *initState, o opDef, where string) s
 	if o.Page {
 		so.outcome += ":paged"
 	}
-	so.nontriv = post.KeyA != pre.obs.KeyA || len(must) > 0 || hits > 0 || o.Kind == "push" || o.Kind == "clone"
+	truncated := false
+	if o.Limit > 0 {
+		// how the limit relates to the number of locks the server holds (and how many of them are the acting user's)
+		own := 0
+		for _, l := range post.Table {
+			if l.Owner == users[u] {
+				own++
+			}
+		}
+		truncated = len(post.Table) > o.Limit
+		rel := map[bool]string{true: "truncated", false: "complete"}[truncated]
+		if len(post.Table) == o.Limit {
+			rel = "exactly-filled"
+		}
+		so.outcome += fmt.Sprintf(":limit%d:%s:own%d-of-%d", o.Limit, rel, own, len(post.Table))
+		if !verifyKind {
+			so.counters["clause2b_limited_plain_listings"]++
+		}
+	}
+	so.nontriv = post.KeyA != pre.obs.KeyA || len(must) > 0 || hits > 0 || o.Kind == "push" || o.Kind == "clone" || truncated
 	t3 := time.Now()
 	nn.snap = w.capture()
 	so.counters["t_us_capture"] = time.Since(t3).Microseconds()
@@ -1402,6 +1471,27 @@ func faultAlphabet(thorough bool) []opDef {
 		ops = append(ops, mk(u, "locks-verify", "").with(&faultDef{"lock-verify", 2, 500}, true))
 		ops = append(ops, mk(u, "locks-verify-json", "").with(&faultDef{"lock-verify", 2, 500}, true))
 		ops = append(ops, mk(u, "unlock", fP).with(nil, true))
+	}
+	return ops
+}
+
+// limitAlphabet: the lock-listing commands with `--limit N` (N = 1, 2, 3 against tables of 0..3 locks: truncated, exactly
+// filled and complete listings), nominal, with a paginating server (1 lock per page: the limit is reached on a later page) and
+// with fault answers, next to the operations that make the listings matter: lock / unlock / the other user's unlock --force
+// (stale cache entries), the full `locks --verify`, and a branch switch (post-checkout recomputes write bits from the cache).
+func limitAlphabet(thorough bool) []opDef {
+	var ops []opDef
+	for u := range users {
+		v, vj, l, lj := mk(u, "locks-verify", ""), mk(u, "locks-verify-json", ""), mk(u, "locks", ""), mk(u, "locks-json", "")
+		ops = append(ops, mk(u, "lock", fP), mk(u, "lock", fQ), mk(u, "unlock", fP), mk(u, "unlock-force", fP), v, mk(u, "checkout", ""),
+			v.lim(1), v.lim(2), v.lim(3), vj.lim(1), l.lim(1), lj.lim(1),
+			v.lim(2).with(nil, true), vj.lim(2).with(nil, true), l.lim(2).with(nil, true),
+			v.lim(1).with(&faultDef{"lock-verify", 1, 500}, false), v.lim(2).with(&faultDef{"lock-verify", 2, 500}, true))
+		if thorough {
+			ops = append(ops, mk(u, "lock", fN), mk(u, "unlock", fQ), vj.lim(2), vj.lim(3), l.lim(2), v.lim(3).with(nil, true),
+				vj.lim(1).with(&faultDef{"lock-verify", 1, 403}, false), vj.lim(2).with(&faultDef{"lock-verify", 2, 500}, true),
+				l.lim(1).with(&faultDef{"lock-list", 1, 500}, false))
+		}
 	}
 	return ops
 }
@@ -1820,12 +1910,15 @@ func TestVerifC16(t *testing.T) {
 	iUnsetP1 := derive(iUnsetOn, "p.dat locked by u1", lk(0, fP))
 	iFalseP1 := derive(iFalseOn, "p.dat locked by u1", lk(0, fP))
 	var iP1, iP2, iQ1, iQ2, iPQ1, iPQ2 initState
+	iP1 = derive(iTrueOn, "p.dat locked by u1", lk(0, fP))
+	iPQ1 = derive(iTrueOn, "p.dat and q.dat locked by u1", lk(0, fP), lk(0, fQ))
+	// the acting user holds two locks and the other user one, in both orders of the server's table
+	iPQ1N2 := derive(iTrueOn, "p.dat and q.dat locked by u1, n.dat locked by u2 (server table order p,q,n)", lk(0, fP), lk(0, fQ), lk(1, fN))
+	iN2PQ1 := derive(iTrueOn, "n.dat locked by u2, p.dat and q.dat locked by u1 (server table order n,p,q)", lk(1, fN), lk(0, fP), lk(0, fQ))
 	if e.thorough {
-		iP1 = derive(iTrueOn, "p.dat locked by u1", lk(0, fP))
 		iP2 = derive(iTrueOn, "p.dat locked by u2", lk(1, fP))
 		iQ1 = derive(iTrueOn, "q.dat locked by u1", lk(0, fQ))
 		iQ2 = derive(iTrueOn, "q.dat locked by u2", lk(1, fQ))
-		iPQ1 = derive(iTrueOn, "p.dat and q.dat locked by u1", lk(0, fP), lk(0, fQ))
 		iPQ2 = derive(iTrueOn, "p.dat and q.dat locked by u2", lk(1, fP), lk(1, fQ))
 	}
 
@@ -1858,6 +1951,7 @@ func TestVerifC16(t *testing.T) {
 			{Name: "locks-multi-deep", Inits: []initState{iTrueOn, iP1Q2, iN1}, Ops: multiAlphabet(false), MaxDepth: 3, MaxDevs: 1, Share: 12, Sym: true},
 			{Name: "locks", Inits: []initState{iTrueOn}, Ops: locksAlphabet(true, false), MaxDepth: 4, MaxDevs: 0, Share: 16, Sym: true},
 			{Name: "locks-faults", Inits: []initState{iTrueOn, iP1, iP1Q2}, Ops: faultAlphabet(true), MaxDepth: 3, MaxDevs: 1, Share: 26, Sym: true},
+			{Name: "locks-limit", Inits: []initState{iTrueOn, iP1, iP1Q2, iPQ1, iPQ1N2, iN2PQ1}, Ops: limitAlphabet(true), MaxDepth: 3, MaxDevs: 1, Share: 20, Sym: true},
 		}
 	} else {
 		parts = []partDef{
@@ -1869,6 +1963,7 @@ func TestVerifC16(t *testing.T) {
 			{Name: "locks", Inits: []initState{iTrueOn}, Ops: locksAlphabet(false, false), MaxDepth: 3, MaxDevs: 0, Share: 20, Sym: true},
 			{Name: "locks-faults", Inits: []initState{iTrueOn, iP1Q2}, Ops: faultAlphabet(false), MaxDepth: 2, MaxDevs: 1, Share: 18, Sym: true},
 			{Name: "locks-multi", Inits: []initState{iTrueOn, iP1Q2, iN1}, Ops: multiAlphabet(false), MaxDepth: 2, MaxDevs: 1, Share: 26, Sym: true},
+			{Name: "locks-limit", Inits: []initState{iTrueOn, iP1, iP1Q2, iPQ1, iPQ1N2, iN2PQ1}, Ops: limitAlphabet(false), MaxDepth: 2, MaxDevs: 1, Share: 20, Sym: true},
 			{Name: "push", Inits: []initState{iTrueOn, iP1Q2, iP2Q1}, Ops: pushAlphabet(false, []int{1}, true), MaxDepth: 4, MaxDevs: 1, Share: 32},
 		}
 	}
@@ -1887,6 +1982,10 @@ func TestVerifC16(t *testing.T) {
 		"unlock --force of files at every level typed from the work-tree root or from inside assets/ (q.dat, x.dat, [thorough] ../x.dat, deep/r.dat), editor-style save of assets/q.dat (new file, mode 0644), commit (post-commit), " +
 		"branch switch (post-checkout, incremental), `git checkout -- assets/q.dat` (post-checkout, full scan), `git merge side` (post-merge, full scan), a new clone made by a user without locks (filter-process installs the hooks, " +
 		"git runs post-checkout with the null id: full scan); after every transition the write bit of EVERY lockable file in the hook's / command's scope must equal 'the acting user holds its lock', non-lockable files keep their mode. " +
+		"Scenario locks-limit (the --limit dimension of the lock-listing operations): `locks --verify --limit N` (N=1,2,3), `locks --verify --json --limit N`, `locks --limit N`, `locks --json --limit N`, nominal, with the server paginating 1 lock per page " +
+		"(limit reached on a later page) and with fault answers, from lock tables {none; p:u1; p:u1+q:u2; p,q:u1; p,q:u1+n:u2 in both table orders} (the acting user holds 0, 1, 2 locks, the other user 0 or 1; N below, equal to and above the number of locks), " +
+		"next to lock/unlock/unlock --force/full locks --verify/branch switch; clause 2b for a limited listing: it is a PARTIAL view - per path the cached entry must be what was known before or what the server holds now, " +
+		"so a listing cut by the limit must not drop or replace what the cache says about locks it did not list (`--limit 0` is the flag's default value = the unlimited commands of the other scenarios). " +
 		"A transition is non-trivial when it changes the canonical state, obliges a write-bit recomputation, meets an injected fault or is a push; distinct = distinct (canonical state, operation)."
 	c.Assumptions = []string{
 		"Knowledge model (DESIGN.md C16): the locks a user 'holds' for clause 2 are those the server granted to his own successful `lock`, minus those released by his own successful `unlock`, reset to the server's list of his own locks by his successful, complete `locks --verify`; a release forced by the other user is not known to him until then. After a reported violation the model is re-synchronised to the observed cache so that one defect yields one fingerprint.",
